@@ -6,9 +6,10 @@ from .. import lbgen, lbshadow
 from . import c02
 
 ID = "C13"
-MODULES = ["Helios.Props.C13"]
+MODULES = ["Helios.Props.C13", "Helios.Props.C13G"]
 THEOREMS = ["Helios.LB.begin_conserved", "Helios.LB.end_conserved", "Helios.LB.conserved_run",
-            "Helios.LB.quiescent_totals", "Helios.LB.gauges_zero_when_idle"]
+            "Helios.LB.quiescent_totals", "Helios.LB.gauges_zero_when_idle",
+            "Helios.LB.ginv_step", "Helios.LB.gauge_ok_run", "Helios.LB.gauges_zero_run"]
 
 
 def gen_episode(rng, long=False):
